@@ -218,6 +218,12 @@ class MathCheck:
             path = vlib.write_replay(prop, 0, h)
             print("VIOLATION property=%s replay=%s  # %s on %s did not return within 30 s (arguments between %s and %s)" % (prop, path, h.get("op"), h.get("arch"), h.get("first_arg"), h.get("last_arg")))
             return 1
+        if p.returncode == 5 and os.path.exists(out):
+            h = json.load(open(out))
+            h["hang"] = True
+            path = vlib.write_replay(prop, 0, h)
+            print("VIOLATION property=%s replay=%s  # %s on %s died with signal %s inside a kernel call (arguments between %s and %s): e.g. the stack overflow of a recursion whose depth follows the argument" % (prop, path, h.get("op"), h.get("arch"), h.get("signal"), h.get("first_arg"), h.get("last_arg")))
+            return 1
         if p.returncode != 0:
             print("[vcheck] explorer failed with status %d" % p.returncode)
             return 2
